@@ -487,7 +487,7 @@ func (p c02) leafrefs(c *core.Ctx, idx int) {
 	r := c.Rand
 	targets := []struct{ typ, format string }{{"type int32;", "int32"}, {"type string;", "string"}, {"type tt;", "uint16"}, {"type enumeration { enum a; }", "enumeration"}, {"type boolean;", "boolean"}}
 	t := targets[r.Intn(len(targets))]
-	variant := r.Intn(9)
+	variant := r.Intn(10)
 	var body, extra string
 	mods := map[string]string{}
 	nExp := 1
@@ -511,6 +511,10 @@ func (p c02) leafrefs(c *core.Ctx, idx int) {
 		body = fmt.Sprintf("  container c { choice ch { case one { leaf tgt { %s } choice inner { case i1 { leaf x { type leafref { path \"../tgt\"; } } } } } } }\n", t.typ)
 	case 8: // two levels up from inside a case of a nested container
 		body = fmt.Sprintf("  container c { leaf tgt { %s } container d { choice ch { leaf x { type leafref { path \"../../tgt\"; } } } } }\n", t.typ)
+	case 9: // one grouping, two places, the path leads to leaves of different types
+		body = "  grouping g { container i { leaf x { type leafref { path \"../../tgt\"; } } } }\n" +
+			"  container c0 { leaf tgt { type int32; } uses g; }\n  container c1 { leaf tgt { type string; } uses g; }\n"
+		nExp = 2
 	case 5: // into an imported module
 		tt := t.typ
 		if strings.Contains(tt, "tt;") {
@@ -539,7 +543,7 @@ func (p c02) leafrefs(c *core.Ctx, idx int) {
 	if c.Guard("load", func() { m, err = c02load(mods) }) {
 		return
 	}
-	vname := []string{"relative", "forward", "absolute-into-list", "leafref-to-leafref", "typedef-in-grouping-x2", "imported-module", "out-of-a-case", "inside-nested-choice", "two-up-from-a-case"}[variant]
+	vname := []string{"relative", "forward", "absolute-into-list", "leafref-to-leafref", "typedef-in-grouping-x2", "imported-module", "out-of-a-case", "inside-nested-choice", "two-up-from-a-case", "grouping-used-at-two-target-types"}[variant]
 	if err != nil {
 		c.Violate("leafref/load-error/"+vname, "%v\n%s", err, all)
 		return
@@ -548,6 +552,17 @@ func (p c02) leafrefs(c *core.Ctx, idx int) {
 	if variant == 3 {
 		// x -> mid -> tgt: resolving once gives the leafref mid; its own resolution gives the target
 		want.resolved = "leafref"
+	}
+	if variant == 9 {
+		// per expansion
+		ld := leafDumps(m, name)
+		if len(ld) != 2 {
+			c.Violate("leafref/expansion-count", "expected 2 expansions, got %d\n%s", len(ld), all)
+			return
+		}
+		p.compare(c, "leafref", eff2{format: "leafref", resolved: "int32"}, ld[:1], 1, all, "/"+vname)
+		p.compare(c, "leafref", eff2{format: "leafref", resolved: "string"}, ld[1:], 1, all, "/"+vname+"/second-use")
+		return
 	}
 	p.compare(c, "leafref", want, leafDumps(m, name), nExp, all, "/"+vname)
 }
